@@ -367,7 +367,12 @@ class ExceptionFlow:
             return set()
         k = n.get("k")
         if k == "lambda":
-            return set()
+            # the closure's body runs when it is called; its init-captures are evaluated here
+            out = set()
+            for c in n.get("caps", []):
+                if isinstance(c, dict) and c.get("init") is not None:
+                    out |= self.escaping(f, c["init"], caught)
+            return out
         if k == "try":
             body = self.escaping(f, n["body"], caught)
             out = set()
